@@ -768,6 +768,14 @@ func BVShl(a, b *Term) *Term {
 	if b.IsConst() && b.Val == 0 {
 		return a
 	}
+	if b.IsConst() && w <= 64 {
+		if b.Val >= uint64(w) {
+			return Const(w, 0)
+		}
+		if a.Op == "bvshl" && a.Args[1].IsConst() {
+			return BVShl(a.Args[0], Const(w, a.Args[1].Val+b.Val))
+		}
+	}
 	return bin("bvshl", a, b)
 }
 func BVLshr(a, b *Term) *Term {
@@ -780,6 +788,14 @@ func BVLshr(a, b *Term) *Term {
 	}
 	if b.IsConst() && b.Val == 0 {
 		return a
+	}
+	if b.IsConst() && w <= 64 {
+		if b.Val >= uint64(w) {
+			return Const(w, 0)
+		}
+		if a.Op == "bvlshr" && a.Args[1].IsConst() {
+			return BVLshr(a.Args[0], Const(w, a.Args[1].Val+b.Val))
+		}
 	}
 	return bin("bvlshr", a, b)
 }
